@@ -71,6 +71,7 @@ func contains(ss []string, x string) bool {
 }
 
 func runC13(w *W) {
+	perturbCache = true
 	var pFu *calendar.Fu
 	var pShu *calendar.ShuJiu
 	sweepDays(w, "C13", func(d *Day, prev *Day) {
@@ -89,7 +90,7 @@ func runC13(w *W) {
 			times = append(times, hms{0, 0, 0}, hms{23, 59, 59})
 		}
 		for ti, t := range times {
-			l := d.At(t.h, t.m, t.s).GetLunar()
+			l := lunarP(d.At(t.h, t.m, t.s), d.J)
 			w.R.Evals++
 			nontriv := false
 			// ---- nine-nines
